@@ -12,7 +12,7 @@ META = dict(
               "notification queue (C12) and l2cap_output; theorems about the sorted list (permutation, positions) and the "
               "output step; monitor keeping the requested set, the CCCD bits each connection wrote and the current values; "
               "tie: generated server<> instantiations with 1/4/5/9 CCCDs with and without outgoing priorities, 3 connections",
-    level_note="proved: by value / by uuid requests queue the sorted position of the requested characteristic; transmitted PDU = handle + current bytes, only with the CCCD bit; for every configuration without an empty service the attribute read is the characteristic's own value attribute and the tested store position is its CCCD's. Refuted: the same with an empty service (known finding). NOT proved: trace level statement C10_monitor_accepts_model_full (Definition). See docs/C10.md")
+    level_note="proved: by value / by uuid requests queue the sorted position of the requested characteristic; transmitted PDU = handle + current bytes, only with the CCCD bit; for every configuration without an empty service the attribute read is the characteristic's own value attribute and the tested store position is its CCCD's. Refuted: the same with an empty service (known finding). TRACE LEVEL: on every fault-free model trace (any operations, any length, requests by value and by uuid) of a wf configuration without include_service<> with env10 (attributable, no write queue, no encryption requirement on a characteristic with CCCD, handles < 65536) the clauses not_subscribed, duplicate_pdu, wrong_characteristic never fire (C10_not_subscribed_never_fires, C10_duplicate_pdu_never_fires, C10_wrong_characteristic_never_fires) and whatever monitor10 reports is none of five of its six clauses (C10_monitor_accepts_model_partial); table position = global characteristic number for every configuration (C10_table_position_is_gci). NOT proved: the clause wrong_value at trace level (known values against vals), hence C10_monitor_accepts_model_full stays a Definition. See docs/C10.md")
 
 
 class C10(AttBase):
